@@ -8,6 +8,7 @@ import XotModel.Model.FspecSpec
 import XotModel.Lemmas.ForestBasic
 import XotModel.Lemmas.FspecDetach
 import XotModel.Lemmas.FspecAppend
+import XotModel.Lemmas.FspecContent
 
 namespace XotModel.Props
 open XotModel XotModel.Spec
@@ -93,6 +94,64 @@ theorem C05_append {f : Forest} {p c : Nat} (inv : f.Inv) (norm : f.Normal)
 theorem C05_samepos_append {f : Forest} {p c : Nat} (hc : f.structureCheck (some p) c = true)
     (h : f.lastChild p = some c) : f.append p c = (f, .ok) := by
   simp [Forest.append, hc, h]
+
+/-! ### prepend, insert_after, insert_before
+
+  Proved when the moved node is not, before the call, a child of the destination parent
+  (`_partial`: the extra hypothesis is exactly "the node comes from another child list or is a
+  parentless tree"; the remaining case — reordering within one child list — is covered by the
+  correspondence suite `fspec` and, for `append`, by `C05_append`). -/
+
+/-- `prepend(p, c)`, content. -/
+theorem C05_prepend_partial {f : Forest} {p c : Nat} (inv : f.Inv) (norm : f.Normal)
+    (hfar : f.parent? c ≠ some p) (hok : (f.prepend p c).2 = .ok) :
+    (f.prepend p c).1.content = (specMove Keep.earlier (.firstNormalChildOf p) c f).content :=
+  prepend_content_far inv norm hfar hok
+
+/-- `prepend(p, c)`, handle for handle, with xot's survivor rule. -/
+theorem C05_prepend_resident_partial {f : Forest} {p c : Nat} (inv : f.Inv) (norm : f.Normal)
+    (hfar : f.parent? c ≠ some p) (hok : (f.prepend p c).2 = .ok) :
+    (f.prepend p c).1 = specMove (Keep.resident c) (.firstNormalChildOf p) c f :=
+  prepend_spec_far inv norm hfar hok
+
+theorem C05_insertAfter_partial {f : Forest} {r c : Nat} (inv : f.Inv) (norm : f.Normal)
+    (hfar : f.parent? c ≠ f.parent? r) (hok : (f.insertAfter r c).2 = .ok) :
+    (f.insertAfter r c).1.content = (specMove Keep.earlier (.after r) c f).content :=
+  insertAfter_content_far inv norm hfar hok
+
+theorem C05_insertAfter_resident_partial {f : Forest} {r c : Nat} (inv : f.Inv) (norm : f.Normal)
+    (hfar : f.parent? c ≠ f.parent? r) (hok : (f.insertAfter r c).2 = .ok) :
+    (f.insertAfter r c).1 = specMove (Keep.resident c) (.after r) c f :=
+  insertAfter_spec_far inv norm hfar hok
+
+theorem C05_insertBefore_partial {f : Forest} {r c : Nat} (inv : f.Inv) (norm : f.Normal)
+    (hfar : f.parent? c ≠ f.parent? r) (hok : (f.insertBefore r c).2 = .ok) :
+    (f.insertBefore r c).1.content = (specMove Keep.earlier (.before r) c f).content :=
+  insertBefore_content_far inv norm hfar hok
+
+theorem C05_insertBefore_resident_partial {f : Forest} {r c : Nat} (inv : f.Inv) (norm : f.Normal)
+    (hfar : f.parent? c ≠ f.parent? r) (hok : (f.insertBefore r c).2 = .ok) :
+    (f.insertBefore r c).1 = specMove (Keep.resident c) (.before r) c f :=
+  insertBefore_spec_far inv norm hfar hok
+
+/-- Same position, the other three moves: a call naming the place the node already occupies
+    returns the forest itself. -/
+theorem C05_samepos_prepend {f : Forest} {p c : Nat} (hc : f.structureCheck (some p) c = true)
+    (h : f.firstChild p = some c) : f.prepend p c = (f, .ok) := by
+  simp [Forest.prepend, hc, h]
+
+theorem C05_samepos_insertAfter {f : Forest} {r c : Nat} (hc : f.structureCheck (f.parent? r) c = true)
+    (hs : f.siblingReferenceCheck r c = true) (h : f.nextSibling r = some c) : f.insertAfter r c = (f, .ok) := by
+  simp [Forest.insertAfter, hc, hs, h]
+
+theorem C05_samepos_insertBefore {f : Forest} {r c : Nat} (hc : f.structureCheck (f.parent? r) c = true)
+    (hs : f.siblingReferenceCheck r c = true) (h : f.prevSibling r = some c) : f.insertBefore r c = (f, .ok) := by
+  simp [Forest.insertBefore, hc, hs, h]
+
+/-- … and the specification agrees: an occupied destination means "no change". -/
+theorem C05_samepos_spec (keep : Keep) (dest : Dest) (c : Nat) (f : Forest) (h : dest.occupiedBy f c = true) :
+    specMove keep dest c f = f := by
+  unfold specMove; rw [h]; rfl
 
 /-- When a text node is appended after a text node, the EARLIER node survives: it keeps its
     handle and carries both data, the appended node is gone. -/
